@@ -37,6 +37,7 @@ fn main() {
         "dump" => cmd_dump(&args),
         "procenum" => cmd_procenum(&args),
         "stress-dl" => cmd_stress_dl(&args),
+        "stress-metrics" => cmd_stress_metrics(&args),
         "tsched" => cmd_tsched(&args),
         "tsched-replay" => cmd_tsched_replay(&args),
         "stress-ids" => cmd_stress_ids(&args),
@@ -523,6 +524,87 @@ fn cmd_stress_dl(args: &[String]) {
 #[cfg(not(feature = "f_testutils"))]
 fn cmd_stress_dl(_args: &[String]) {
     println!("{}", serde_json::json!({"error": "needs f_testutils"}));
+}
+
+/// Sampling, not exhaustive (DESIGN.md L1): reader threads poll an actor's metrics as fast as they can while the
+/// actor (on a multi-thread runtime) handles N asks; once everything is quiet message_count must be N and the
+/// count seen by each reader must never have gone down. Sound when it fires; silence proves nothing.
+#[cfg(feature = "f_metrics")]
+fn cmd_stress_metrics(args: &[String]) {
+    use rsactor::{Actor, ActorRef};
+    struct Tiny;
+    impl Actor for Tiny {
+        type Args = ();
+        type Error = String;
+        async fn on_start(_: (), _: &ActorRef<Self>) -> Result<Self, String> {
+            Ok(Tiny)
+        }
+    }
+    struct Ping;
+    impl rsactor::Message<Ping> for Tiny {
+        type Reply = u32;
+        async fn handle(&mut self, _: Ping, _: &ActorRef<Self>) -> u32 {
+            1
+        }
+    }
+    msched::TRACE_OFF.store(true, std::sync::atomic::Ordering::SeqCst);
+    let readers: usize = args.get(2).and_then(|s| s.parse().ok()).unwrap_or(6);
+    let n: u64 = args.get(3).and_then(|s| s.parse().ok()).unwrap_or(20000);
+    let rt = tokio::runtime::Builder::new_multi_thread().worker_threads(4).enable_all().build().unwrap();
+    let (r, jh) = {
+        let _g = rt.enter();
+        rsactor::spawn::<Tiny>(())
+    };
+    let stop = Arc::new(std::sync::atomic::AtomicBool::new(false));
+    let mut hs = Vec::new();
+    for _ in 0..readers {
+        let r = r.clone();
+        let stop = stop.clone();
+        hs.push(std::thread::spawn(move || {
+            let (mut last, mut decreased, mut reads) = (0u64, 0u64, 0u64);
+            while !stop.load(std::sync::atomic::Ordering::Relaxed) {
+                let c = if reads % 2 == 0 { r.metrics().message_count } else { r.message_count() };
+                if c < last {
+                    decreased += 1;
+                }
+                last = c;
+                reads += 1;
+            }
+            (decreased, reads)
+        }));
+    }
+    let handled = rt.block_on(async {
+        let mut ok = 0u64;
+        for _ in 0..n {
+            if r.ask(Ping).await.is_ok() {
+                ok += 1;
+            }
+        }
+        ok
+    });
+    stop.store(true, std::sync::atomic::Ordering::Relaxed);
+    let (mut decreased, mut reads) = (0u64, 0u64);
+    for h in hs {
+        let (d, k) = h.join().unwrap();
+        decreased += d;
+        reads += k;
+    }
+    let final_count = r.message_count();
+    let snap = r.metrics();
+    rt.block_on(async {
+        let _ = r.stop().await;
+        let _ = jh.await;
+    });
+    println!(
+        "{}",
+        serde_json::json!({"readers": readers, "asks": n, "handled": handled, "message_count": final_count, "snapshot_count": snap.message_count,
+            "avg_ns": snap.avg_processing_time.as_nanos() as u64, "max_ns": snap.max_processing_time.as_nanos() as u64, "reads": reads, "decreases_seen": decreased})
+    );
+}
+
+#[cfg(not(feature = "f_metrics"))]
+fn cmd_stress_metrics(_args: &[String]) {
+    println!("{}", serde_json::json!({"error": "needs f_metrics"}));
 }
 
 /// rsv tsched --prop C11 [--cap N] [--out file]: every interleaving of the operations on rsactor's process-wide
